@@ -13,6 +13,8 @@ def tags_of(d):
         t += ["degree=%d" % d["degree"], "scheme=%s" % d["scheme"]]
     kind, opts = P.grid_kind_opts(d)
     t.append("gridkind=%s" % kind)
+    if kind in ("function", "density", "dense_edges"):
+        t.append("grid_by_normalized_only")
     for k in ("localize_t0", "localize_T"):
         if opts.get(k):
             t.append(k)
